@@ -16,7 +16,8 @@
    event ID matches the request and sender belongs to the requesting server are the caller's;
    the handler checks the signature of the SENDER's server instead. *)
 From Verif Require Import Lib.Bytes Json.Ast Fed.HandshakeCommon Fed.HandshakeJoin Fed.HandshakeInvite
-     Fed.HandshakePerform Fed.HandshakeSpec Fed.HandshakeProofs Gen.GenConsts Gen.GenVersions.
+     Fed.HandshakePerform Fed.HandshakePerformInvite Fed.HandshakeSpec Fed.HandshakeProofs
+     Gen.GenConsts Gen.GenVersions.
 Open Scope N_scope.
 
 (* the constants of the models are those of package spec, and the version table is the one of
@@ -225,6 +226,37 @@ Section Signed.
   Qed.
 End Signed.
 
+(* HandleInviteV3 (pseudo-ID rooms): what is completed and signed with the invitee's room key is
+   an m.room.member invite of the requested room whose target is not already joined, with the
+   invitee's sender ID as state key *)
+Theorem invite_v3_accept_only_if : forall x i,
+  er_out (handle_invite_v3 x i) = OOk ->
+  version_known (iv_version i) = true /\
+  v3_proto_type x = m_room_member /\ v3_proto_membership x = Some s_invite /\
+  v3_proto_room x = iv_req_room i /\
+  (iv_known_room i = Some false \/
+   (iv_known_room i = Some true /\ exists cur, iv_membership i = Some cur /\ cur <> s_join)) /\
+  exists sid v, v3_sender_id x = Some sid /\
+    er_event (handle_invite_v3 x i) = Some (set_invite_room_state v (v3_built x sid)).
+Proof.
+  intros x i H. destruct (handle_invite_v3_ok x i H) as [A B].
+  unfold invite_v3_admissible in A.
+  apply andb_true_iff in A. destruct A as [A Hk].
+  apply andb_true_iff in A. destruct A as [A _].
+  apply andb_true_iff in A. destruct A as [A Hr].
+  apply andb_true_iff in A. destruct A as [A Hm].
+  apply andb_true_iff in A. destruct A as [Hv Ht].
+  destruct (v3_proto_membership x) as [m|]; [|discriminate].
+  apply bytes_eqb_eq in Hm. subst m.
+  repeat split; try assumption; try reflexivity.
+  - apply bytes_eqb_eq. exact Ht.
+  - apply bytes_eqb_eq. exact Hr.
+  - destruct (iv_known_room i) as [[|]|]; [right|left; reflexivity|discriminate].
+    split; [reflexivity|].
+    destruct (iv_membership i) as [cur|]; [|discriminate].
+    exists cur. split; [reflexivity|]. intro E. subst cur. discriminate.
+Qed.
+
 (* ---------- perform_join ---------- *)
 
 Theorem perform_join_only_if : forall i used,
@@ -232,8 +264,9 @@ Theorem perform_join_only_if : forall i used,
   (* both requests were answered and the room version is known *)
   pj_make_join_ok i = true /\ pj_send_join_ok i = true /\
   version_known (effective_version i) = true /\
-  (* the remote's state passes the federation-response checks *)
-  pj_check_ok i = true /\
+  (* the remote's state passes the federation-response checks, run with the very join event that
+     is handed back: the remote's copy if that is used, else the locally built one *)
+  (if used then pj_check_remote i else pj_check_own i) = true /\
   (* and its auth chain contains a create event of a known room version *)
   (exists e, In e (pj_auth_events i) /\ pa_type e = m_room_create /\ pa_state_key e = Some [] /\
              pa_content_ok e = true /\
@@ -242,9 +275,36 @@ Theorem perform_join_only_if : forall i used,
   (used = true -> exists r, pj_remote i = Some r /\ pr_parse_ok r = true /\
                   pr_membership r = Some s_join /\ pr_room_id r = pj_room_id i).
 Proof.
-  intros i used H. destruct (perform_join_ok i used H) as [A [V [_ [_ [_ U]]]]].
-  destruct (perform_join_admissible_meaning i A) as [P1 [P2 [P3 P4]]].
+  intros i used H. destruct (perform_join_ok i used H) as [A [V _]].
+  destruct (perform_join_admissible_meaning i used A) as [P1 [P2 [P3 [P4 P5]]]].
   repeat split; assumption.
+Qed.
+
+(* ---------- perform_invite (room versions with user-ID senders) ----------
+   Not named by the property text; stated because the function is among the anchors.  An invite is
+   handed back only for a known room version, an invitee who is not already joined, an existing
+   room, and an event the auth rules allow.  For a local invitee it is the built event (state key =
+   invitee, at most 10 auth and 20 prev events, signed under the inviter's and the invitee's server
+   names); for a remote invitee it is whatever the invited server answered: PerformInvite does not
+   examine that answer at all in these room versions (see the level note). *)
+Theorem perform_invite_only_if : forall i,
+  pir_out (perform_invite i) = OOk ->
+  perform_invite_admissible i = true /\
+  (pi_target_local i = true ->
+   exists le st, pi_latest_q i = Some le /\
+     pir_event (perform_invite i) =
+       Some (PIBuilt (pi_invitee i) (pl_depth le) (truncate 10 (pl_refs le)) (truncate 20 (pl_prev le))
+                     [pi_inviter_domain i; pi_invitee_domain i] st) /\
+     (length (truncate 10 (pl_refs le)) <= 10)%nat /\ (length (truncate 20 (pl_prev le)) <= 20)%nat) /\
+  (pi_target_local i = false -> pi_send_ok i = true /\ pir_event (perform_invite i) = Some PIRemote).
+Proof.
+  intros i H. destruct (perform_invite_ok i H) as [A [L R]].
+  split; [exact A|]. split.
+  - intro T. destruct (L T) as [le [st [E1 E2]]]. exists le, st.
+    repeat split; try assumption; apply firstn_le.
+  - intro T. split; [|exact (R T)].
+    unfold perform_invite_admissible in A. rewrite T in A.
+    apply andb_true_iff in A. destruct A as [_ A]. exact A.
 Qed.
 
 (* ---------- the oracles of the correspondence run are the theorems' right-hand sides ---------- *)
@@ -253,7 +313,7 @@ Theorem C15_oracles_sound :
   (forall i, tr_out (make_leave i) = OOk -> make_leave_admissible i = true) /\
   (forall sign i, er_out (send_join sign i) = OOk -> send_join_admissible i = true) /\
   (forall sign i, er_out (handle_invite sign i) = OOk -> invite_admissible i = true) /\
-  (forall i used, perform_join i = PJJoined used -> perform_join_admissible i = true).
+  (forall i used, perform_join i = PJJoined used -> perform_join_admissible i used = true).
 Proof.
   repeat split; intros.
   - apply make_join_ok; assumption.
@@ -362,5 +422,7 @@ Print Assumptions send_join_accept_only_if_on_event_text.
 Print Assumptions send_join_output_signed_locally.
 Print Assumptions invite_accept_only_if.
 Print Assumptions invite_output_signed_locally.
+Print Assumptions invite_v3_accept_only_if.
 Print Assumptions perform_join_only_if.
+Print Assumptions perform_invite_only_if.
 Print Assumptions C15_oracles_sound.
